@@ -92,7 +92,7 @@ def timing_scenarios(tier):
     two("map-mc1-task-timeout-items", chain(("M", Map(chain(("I", Task("fi", TimeoutSeconds=4))), MaxConcurrency=1)), Z), inp=[1, 2],
         workers={"fi": {"1": [["delay", ["ok", 1]]], "*": NONE}}, budget=1)
     two("parallel-wait-after-task", chain(("P", Parallel([chain(("A1", Task("fa")), ("A2", Wait(2))), chain(("B1", Wait(1)), ("B2", Task("fb", TimeoutSeconds=3)))])), Z),
-        workers={"fa": {"*": [["delay", ["ok", "a"]]]}, "fb": {"*": NONE}}, budget=1)
+        workers={"fa": {"*": [["delay", ["ok", "a"]]]}, "fb": {"*": NONE}}, budget=1, prompt_only=True)
     # the same under a local time zone with a non-zero minute offset (every timestamp the engine writes carries +05:30)
     base = [s for s in out if s["name"] in ("wait-seconds-1", "wait-timestamp-future", "task-timeout-slow-worker-plain", "exec-timeout-in-wait", "exec-timeout-in-task")]
     for s0 in base:
@@ -110,7 +110,8 @@ def run_timing(cr, tier, seed):
     limits = {"max_states": 40000 if tier == "quick" else 400000, "max_depth": 400, "only": mons}
     for sc in list(scs):
         common.annotate(sc)
-        jobs.append((sc, None, limits)); by_name[sc["name"]] = sc
+        if not sc.get("prompt_only"):      # (too large for the timed schedule class: explored in the prompt class only)
+            jobs.append((sc, None, limits)); by_name[sc["name"]] = sc
         sp = copy.deepcopy(sc); sp["name"] += "@prompt"; sp["family"] += "@prompt"; sp["schedule"] = "prompt"; sp["delay_budget"] = 0
         sp.pop("expect", None)
         common.annotate(sp)
